@@ -91,10 +91,10 @@ Theorem C07_single_party_refuted :
 Proof. exact single_party_blocks. Qed.
 
 (* ---- Examples (non-vacuity) ---- *)
-Definition ex_stale   : msg := mkMsg 7 9 1 None 1 true true 0 5 true.       (* round 1 < current round 2 *)
-Definition ex_foreign : msg := mkMsg 8 9 1 None 2 true true 0 5 true.       (* other session *)
-Definition ex_wrongto : msg := mkMsg 7 9 1 (Some 2) 2 true false 0 5 true.  (* addressed to party 2 *)
-Definition ex_unknown : msg := mkMsg 7 9 5 None 2 true true 0 5 true.       (* sender 5 of 3 *)
+Definition ex_stale   : msg := mkMsg 7 9 1 None 1 true true 0 5 true NoPanic.       (* round 1 < current round 2 *)
+Definition ex_foreign : msg := mkMsg 8 9 1 None 2 true true 0 5 true NoPanic.       (* other session *)
+Definition ex_wrongto : msg := mkMsg 7 9 1 (Some 2) 2 true false 0 5 true NoPanic.  (* addressed to party 2 *)
+Definition ex_unknown : msg := mkMsg 7 9 5 None 2 true true 0 5 true NoPanic.       (* sender 5 of 3 *)
 Definition ex_init : sys := init_sys vh_pos fp_cantor 3 7 9 shape_bp3.
 (* p2p before the sender's broadcast, reverse order, a duplicate of an undelivered copy, a round-3 message
    before any round-2 message, duplicates, junk at several positions; then everything else FIFO *)
